@@ -280,6 +280,9 @@ var alphabet = []string{
 	"foreign:notation@s1prime-size", // Notation image manifest, subject = S1's digest+media type with another size
 }
 
+// the retry family adds pushes that fail part-way and pushes of bytes that are already in the layout
+var alphabetRetry = append(append([]string(nil), alphabet...), "push-invalid:1:jws", "push-again:1:jws", "push-again:2:cose")
+
 const (
 	subjS1pMT   = 3
 	subjS1pSize = 4
@@ -447,13 +450,27 @@ var envelopeSizes = []int{900, 120, 900, 4000, 64, 2000, 120, 300, 4000, 64, 100
 
 // envelope returns the distinct envelope of a step (binary). The sizes go up and down with the step and
 // several steps share a size, whatever the operation (same size, other content).
+//
+// The first and last bytes are the kind a careless layer would "clean up": white space of every sort
+// (ASCII, NEL, NBSP), NUL; one step pushes an envelope that is white space only, one an empty envelope.
 func envelope(step int, tag string) []byte {
-	b := []byte(fmt.Sprintf("env-%03d-%s\x00\xff\r\n", step, tag))
-	n := envelopeSizes[step%len(envelopeSizes)]
+	switch step % 12 {
+	case 4:
+		return []byte(" \r\n\t \n")
+	case 3:
+		return []byte{}
+	}
+	e := envelopeEdges[step%len(envelopeEdges)]
+	b := []byte(e[0] + fmt.Sprintf("env-%03d-%s\x00\xff", step, tag))
+	n := envelopeSizes[step%len(envelopeSizes)] - len(e[1])
 	for len(b) < n {
 		b = append(b, byte('a'+(step+len(b))%26))
 	}
-	return b
+	return append(b, e[1]...)
+}
+
+var envelopeEdges = [][2]string{
+	{"", "\n"}, {"\t ", " "}, {"\n", "\r"}, {"", ""}, {"\xc2\xa0", "\xc2\x85"}, {"\x00", "\x00"}, {"\v", "\f"},
 }
 
 const annCreated = "org.opencontainers.image.created"
@@ -541,43 +558,74 @@ func copyMap(m map[string]string) map[string]string {
 	return c
 }
 
+// push calls PushSignature and records what the model has to know.
+func (w *world) push(step int, op string, si int, format string, env []byte, ann map[string]string, refusable bool) {
+	mt := mtJWS
+	if format == "cose" {
+		mt = mtCOSE
+	}
+	subject := w.pushSubject(step, si)
+	givenBlob, givenAnn := append([]byte(nil), env...), copyMap(ann)
+	w.evals++
+	bd, md, err := w.repo.PushSignature(ctx, mt, givenBlob, subject, givenAnn)
+	// the caller re-uses the buffer it handed in (the envelope that was pushed is the one of the call).
+	// The annotations map is left alone: oras-go keeps the caller's map in the descriptors it hands out,
+	// so scribbling over it would make the harness itself change what a store reports.
+	for i := range givenBlob {
+		givenBlob[i] = 0xEE
+	}
+	if err != nil {
+		// the statement speaks about what holds after pushes, not about which pushes succeed: a refused push is
+		// recorded; should its manifest be listed for its subject all the same, that is recorded too
+		if refusable {
+			w.notes["push refused: creation time annotation is not RFC 3339 (not judged)"]++
+		} else {
+			w.notes["recorded:push/error"]++
+		}
+		w.recs = append(w.recs, rec{Class: "sig-failed", Op: op, Subject: si, MediaType: mt, Envelope: env, Ann: ann})
+		return
+	}
+	if !same(bd, descOf(mt, env)) {
+		w.notes["recorded:push/returned-blob-descriptor-differs-from-pushed-bytes"]++
+	}
+	w.recs = append(w.recs, rec{Class: "sig-api", Op: op, Subject: si, Manifest: md, BlobDesc: bd, MediaType: mt, Envelope: env, Ann: ann})
+}
+
 // apply executes one operation; a non-nil viol means the real code misbehaved,
 // an error means the harness could not build the case.
 func (w *world) apply(step int, op string) (*viol, error) {
-	if strings.HasPrefix(op, "push:") {
+	switch {
+	case strings.HasPrefix(op, "push:"):
 		f := strings.Split(op, ":")
 		si, _ := strconv.Atoi(f[1])
-		mt := mtJWS
-		if f[2] == "cose" {
-			mt = mtCOSE
-		}
-		env := envelope(step, f[2])
 		ann, refusable := annotationsFor(step)
-		subject := w.pushSubject(step, si-1)
-		givenBlob, givenAnn := append([]byte(nil), env...), copyMap(ann)
-		w.evals++
-		bd, md, err := w.repo.PushSignature(ctx, mt, givenBlob, subject, givenAnn)
-		// the caller re-uses the buffer it handed in (the envelope that was pushed is the one of the call).
-		// The annotations map is left alone: oras-go keeps the caller's map in the descriptors it hands out,
-		// so scribbling over it would make the harness itself change what a store reports.
-		for i := range givenBlob {
-			givenBlob[i] = 0xEE
+		w.push(step, op, si-1, f[2], envelope(step, f[2]), ann, refusable)
+		return nil, nil
+	case strings.HasPrefix(op, "push-invalid:"):
+		// a push that fails part-way: the creation time is hand-labelled "not RFC 3339", oras-go refuses to pack
+		// the manifest after the envelope blob has been stored
+		f := strings.Split(op, ":")
+		si, _ := strconv.Atoi(f[1])
+		w.push(step, op, si-1, f[2], envelope(step, f[2]), map[string]string{annCreated: "not a time", "example.org/step": strconv.Itoa(step)}, true)
+		return nil, nil
+	case strings.HasPrefix(op, "push-again:"):
+		// the retry: a push whose envelope bytes are already present in the layout as a blob, but not as a stored
+		// signature (left behind by a push that failed, or the blob of a foreign referrer), now with good annotations
+		f := strings.Split(op, ":")
+		si, _ := strconv.Atoi(f[1])
+		stored := map[string]bool{}
+		for i := range w.recs {
+			if isSig(w.recs[i].Class) {
+				stored[string(w.recs[i].Envelope)] = true
+			}
 		}
-		if err != nil && refusable {
-			w.notes["push refused: creation time annotation is not RFC 3339 (not judged)"]++
-			return nil, nil
+		for i := len(w.recs) - 1; i >= 0; i-- {
+			if !isSig(w.recs[i].Class) && !stored[string(w.recs[i].Envelope)] {
+				w.push(step, op, si-1, f[2], w.recs[i].Envelope, map[string]string{"example.org/retry-of": w.recs[i].Op, annCreated: "2002-03-04T05:06:07Z"}, false)
+				return nil, nil
+			}
 		}
-		if err != nil {
-			// the statement speaks about what holds after pushes, not about which pushes succeed: a refused push is
-			// recorded; should its manifest be listed for its subject all the same, that is recorded too
-			w.notes["recorded:push/error"]++
-			w.recs = append(w.recs, rec{Class: "sig-failed", Op: op, Subject: si - 1, MediaType: mt, Envelope: env, Ann: ann})
-			return nil, nil
-		}
-		if !same(bd, descOf(mt, env)) {
-			w.notes["recorded:push/returned-blob-descriptor-differs-from-pushed-bytes"]++
-		}
-		w.recs = append(w.recs, rec{Class: "sig-api", Op: op, Subject: si - 1, Manifest: md, BlobDesc: bd, MediaType: mt, Envelope: env, Ann: ann})
+		w.notes["push-again: no blob in the layout to push again (no operation)"]++
 		return nil, nil
 	}
 	name := strings.TrimPrefix(op, "foreign:")
@@ -686,8 +734,9 @@ func (w *world) check(repo registry.Repository, raw oras.GraphTarget, phase stri
 		if w.recs[i].Manifest.Digest != "" {
 			byDigest[w.recs[i].Manifest.Digest] = i
 		}
-		if isSig(w.recs[i].Class) || w.recs[i].Class == "sig-failed" {
-			byEnvelope[digest.FromBytes(w.recs[i].Envelope)] = i
+		ed := digest.FromBytes(w.recs[i].Envelope)
+		if _, known := byEnvelope[ed]; isSig(w.recs[i].Class) || (w.recs[i].Class == "sig-failed" && !known) {
+			byEnvelope[ed] = i
 		}
 	}
 	readManifest := func(d ocispec.Descriptor) ([]byte, *anyManifest) {
@@ -1107,9 +1156,9 @@ func runHistory(kind string, ops []string, few bool) (vs []viol, outcomes map[st
 }
 
 func canon(ops []string) string {
-	cnt := make([]int, len(alphabet))
+	cnt := make([]int, len(alphabetRetry))
 	for _, op := range ops {
-		for i, a := range alphabet {
+		for i, a := range alphabetRetry {
 			if a == op {
 				cnt[i]++
 			}
@@ -1238,6 +1287,30 @@ func frontierHistories(lo, hi int) [][]string {
 	return out
 }
 
+// retryHistories: every sequence of length <= depth over the 14 operations that contains a push-again.
+func retryHistories(depth int) [][]string {
+	var out [][]string
+	var rec func(h []string, has bool)
+	rec = func(h []string, has bool) {
+		if has {
+			out = append(out, append([]string(nil), h...))
+		}
+		if len(h) == depth {
+			return
+		}
+		for _, a := range alphabetRetry {
+			rec(append(h, a), has || strings.HasPrefix(a, "push-again:"))
+		}
+	}
+	rec(nil, false)
+	return out
+}
+
+func exploreRetry(r *hx.Run, kind string, depth int) {
+	exploreLevels(r, kind+"#retry", -1, retryHistories(depth))
+	r.Extra["retry_"+kind] = fmt.Sprintf("every sequence of length <= %d over the 11 operations + push-invalid (fails after the blob was stored) + 2 push-again (envelope bytes already in the layout) that contains a push-again", depth)
+}
+
 func explore(r *hx.Run, kind string, depth int) {
 	exploreLevels(r, kind, depth, nil)
 }
@@ -1248,7 +1321,10 @@ func exploreFrontier(r *hx.Run, kind string, lo, hi int) {
 }
 
 func exploreLevels(r *hx.Run, label string, depth int, fixed [][]string) {
-	kind := strings.TrimSuffix(label, "#frontier")
+	kind := label
+	if i := strings.IndexByte(label, '#'); i >= 0 {
+		kind = label[:i]
+	}
 	col := &collector{}
 	var okControls, sequences int64
 	var cmu sync.Mutex
@@ -1777,6 +1853,9 @@ func main() {
 	explore(r, "loose+observed", 2+dObs)
 	explore(r, "paged+observed", 2+dObs)
 	explore(r, "disk", dDisk)
+	exploreRetry(r, "memory", 3+dObs)
+	exploreRetry(r, "disk", 3)
+	exploreRetry(r, "disk+observed", 2+dObs)
 	exploreFrontier(r, "memory", fLo, fHi)
 	if r.Thorough() {
 		exploreFrontier(r, "disk", 5, 7)
